@@ -5,10 +5,6 @@ pub struct Regex;               // external type (regex crate), never inspected 
 pub assume_specification<T: Copy>[ Option::<&T>::copied ](o: Option<&T>) -> (r: Option<T>)
     ensures r == match o { Some(x) => Some(*x), None => None };
 
-#[derive(Debug)]
-pub struct AnyhowError;
-pub type VtResult<T> = Result<T, AnyhowError>;
-
 /// byte spelling of a token (`ToBytes::to_bytes`), as a pure function of the token
 pub uninterp spec fn tok_bytes_ref<T: ?Sized>(t: &T) -> Seq<u8>;
 pub open spec fn tok_bytes<T>(t: T) -> Seq<u8> { tok_bytes_ref(&t) }
